@@ -219,6 +219,21 @@ def real_scan_state(S0, R, module="v17") -> dict:
         return {"err": type(ex).__name__}
 
 
+def real_scan_states(S0s, Rs, module="v17") -> dict:
+    """Several states: types reported for ALL final states (slot by slot)."""
+    op = P.opset_module(module)
+    try:
+        s0 = [L.mk_var(t) for t in S0s]
+        x = L.mk_var({"e": "f32", "s": [5, 2]})
+        r = [L.mk_var(t) for t in Rs]
+        with warnings.catch_warnings():
+            warnings.simplefilter("ignore")
+            outs = op.scan(s0 + [x], body=lambda *a: r + [a[-1]], num_scan_inputs=1)
+        return {"tys": [L.ty_to_json(o.type) for o in outs[: len(S0s)]]}
+    except Exception as ex:  # noqa: BLE001
+        return {"err": type(ex).__name__}
+
+
 def raw_scan_state_run(kind: str, state_shape: list, n: int):
     """A raw `Scan` node (onnx.helper, no spox): one f32 state of the given shape whose body result is
     `kind`(state) — keep / double (Concat) / head (Slice 0:1) / flatten (Reshape [-1]); one scan input
